@@ -519,6 +519,9 @@ func runHistory(spec *SeqSpec, hist []SeqEvent) *SeqRun {
 	for _, l := range res.Trace {
 		fmt.Println("      ", l)
 	}
+	if vsched.EventsOverflow() {
+		panic("seq: the observation log overflowed (raise vsched.MaxEvents); refusing to judge a truncated history")
+	}
 	run.Events = res.Events
 	run.Outcome = res.Outcome
 	run.Detail = res.Detail
